@@ -28,7 +28,58 @@ BOUNDARY = (0, 1, 2, 3, 4, 9, 10, 24, 96, 97, 98, 99, 100, 128, 199, 254, 255)  
 
 
 def plan(tier, seed):
-    return [{"kind": "suite"}] + [{"n": N[tier]} for _ in range(16)]
+    return [{"kind": "suite"}] + [{"n": N[tier]} for _ in range(16)] + [{"kind": "threads", "k": k} for k in range(3 if tier == "quick" else 16)]
+
+
+def run_threads(shard, ctx) -> None:
+    """Parsing is a function of the string: several threads parsing different codes at once (first parses of a fresh interpreter)
+    each get the groups of their own string."""
+    import sys
+    import threading
+
+    from han import obis
+
+    rng = ctx.rng(ID, "threads", shard["k"])
+    n_threads, per = 4, 400
+    work = []
+    for t in range(n_threads):
+        items = []
+        for i in range(per):
+            groups = (gval(rng) if rng.random() < 0.5 else None, gval(rng) if rng.random() < 0.5 else None, gval(rng), gval(rng), gval(rng) if rng.random() < 0.7 else None, gval(rng) if rng.random() < 0.4 else None)
+            items.append((groups, obis_ref.reduced(groups)))
+        work.append(items)
+    bad: list = []
+    barrier = threading.Barrier(n_threads)
+
+    def worker(items, mode):
+        barrier.wait()
+        for groups, text in items:
+            try:
+                if mode == 0:
+                    got = tuple(obis.to_obis_tupple(text))
+                elif mode == 1:
+                    got = tuple(obis.Obis.from_string(text).as_tupple())
+                else:
+                    got = groups if obis.Obis(groups) == text else ("== with the string form is False",)
+            except Exception as ex:
+                got = (repr(ex)[:80],)
+            if got != groups:
+                bad.append((text, groups, got))
+
+    old = sys.getswitchinterval()
+    sys.setswitchinterval(1e-6)
+    try:
+        ts = [threading.Thread(target=worker, args=(w, i % 3)) for i, w in enumerate(work)]
+        for t in ts:
+            t.start()
+        for t in ts:
+            t.join()
+    finally:
+        sys.setswitchinterval(old)
+    ctx.count("parses_in_concurrent_threads", n_threads * per)
+    ctx.case(f"threads{shard['k']}", True, n_threads * per)
+    for text, groups, got in bad[:3]:
+        ctx.violation("C20:differs-under-concurrent-threads", f"{text!r} parsed in {n_threads} threads at once: {got!r}, written groups {groups!r} (the same string parses correctly in one thread)", {"text": text, "groups": list(groups), "syntax": "reduced"})
 
 
 def gval(rng):
@@ -200,6 +251,8 @@ def run(shard, ctx):
 
         suite.run_suite(ctx, "C20")
         return
+    if shard.get("kind") == "threads":
+        return run_threads(shard, ctx)
     rng = ctx.rng(ID)
     patterns = list(itertools.product((False, True), repeat=4))
     for i in range(shard["n"]):
